@@ -1,10 +1,116 @@
-(* C11 — proofs (being extended) *)
-From MV Require Import C11.Model.
+(* C11 — assembly of the statements exported to Properties_C11.v, with the
+   non-vacuity examples.  The proofs proper are in ProofsLib (arrays),
+   ProofsAL (array list), ProofsSeq (stack, linked list, queue), ProofsPS
+   (pointer slot). *)
+From MV Require Export C11.Model C11.ProofsLib C11.ProofsAL C11.ProofsSeq C11.ProofsPS.
 Local Open Scope Z_scope.
+
+(* ---------------------------------------------------------------------- *)
+(* array list / stack / list / queue: histories from init                   *)
+
+Lemma al_history_refines : forall c ok s ops, 0 <= c < two64 -> al_init c ok = Some s -> Forall al_op_ok ops ->
+  (al_contents (fst (al_run s ops)), snd (al_run s ops)) = ProofsAL.ref_run [] ops (fail_flags s ops) /\
+  asize (fst (al_run s ops)) = zlen (al_contents (fst (al_run s ops))).
+Proof.
+  intros c ok s ops Hc H F. destruct (al_init_inv c ok s Hc H) as [I E].
+  destruct (al_run_refines ops s I F) as [I' R]. rewrite E in R. split; auto.
+  symmetry. now apply al_contents_zlen.
+Qed.
+
+Lemma st_history_refines : forall c ok s ops, 0 <= c < two64 -> st_init c ok = Some s -> Forall st_op_ok ops ->
+  (st_contents (fst (st_run s ops)), snd (st_run s ops)) = ref_st_run [] ops (st_fail_flags s ops).
+Proof.
+  intros c ok s ops Hc H F. destruct (st_init_inv c ok s Hc H) as [I E].
+  destruct (st_run_refines ops s I F) as [_ R]. now rewrite E in R.
+Qed.
+
+Lemma ll_history_refines : forall c ok s ops, ll_init c ok = Some s -> ll_ops_ok s ops ->
+  (ll_data (fst (ll_run s ops)), snd (ll_run s ops)) = ref_ll_run [] ops (ll_fail_flags s ops) /\
+  NoDup (map fst (litems (fst (ll_run s ops)))) /\
+  lsize (fst (ll_run s ops)) = zlen (ll_data (fst (ll_run s ops))).
+Proof.
+  intros c ok s ops H F. destruct (ll_init_inv c ok s H) as [I E].
+  destruct (ll_run_refines ops s I F) as [I' R]. rewrite E in R. split; auto.
+  destruct I' as (H1 & H2 & _). split; auto. rewrite H1. unfold ll_data, zlen. now rewrite map_length.
+Qed.
+
+Lemma qu_history_refines : forall c ok s ops, qu_init c ok = Some s ->
+  (qu_data (fst (qu_run s ops)), snd (qu_run s ops)) = ref_qu_run [] ops (qu_fail_flags s ops) /\
+  NoDup (map fst (qitems (fst (qu_run s ops)))) /\
+  qsize (fst (qu_run s ops)) = zlen (qu_data (fst (qu_run s ops))).
+Proof.
+  intros c ok s ops H. destruct (qu_init_inv c ok s H) as [I E].
+  destruct (qu_run_refines ops s I) as [I' R]. rewrite E in R. split; auto.
+  destruct I' as (H1 & H2 & _). split; auto. rewrite H1. unfold qu_data, zlen. now rewrite map_length.
+Qed.
+
+(* ---------------------------------------------------------------------- *)
+(* pointer slot                                                            *)
+
+(* ring statement of DESIGN.md A.3 in every reachable state, for every
+   requested capacity and every cursor preset (so also across the 2^32 wrap) *)
+Lemma ps_inv_reachable_lem : forall req a s0 ops, 0 <= req <= two31 -> ps_init req true = Some s0 ->
+  Forall op_ok ops ->
+  exists s' rs, ps_run (ps_preset s0 a) ops = Some (s', rs) /\
+    NoDup (seg s') /\ (forall sid, In sid (seg s') <-> slot_used (slots s') sid false) /\
+    zlen (seg s') + zlen (live s') = pcap s' /\
+    free_index s' = u32 (alloc_index s' - zlen (live s')) /\
+    free_index s' mod pcap s' = (alloc_index s' + zlen (seg s')) mod pcap s' /\
+    NoDup (live s') /\ (forall sid, In sid (live s') <-> slot_used (slots s') sid true) /\
+    zlen (slots s') = pcap s' /\ zlen (pp s') = pcap s'.
+Proof.
+  intros req a s0 ops Hr H F. destruct (ps_reachable req a s0 ops Hr H F) as (s' & rs & E & I & _).
+  exists s', rs. split; auto. now apply ps_inv_ring.
+Qed.
+
+Lemma ps_iter_insertion_order_lem : forall req a s0 ops, 0 <= req <= two31 -> ps_init req true = Some s0 ->
+  Forall op_ok ops ->
+  exists s' rs, ps_run (ps_preset s0 a) ops = Some (s', rs) /\
+    ps_iter s' = ProofsPS.ref_run [] ops rs /\ spec_run_ok (pcap s0) [] ops rs.
+Proof.
+  intros req a s0 ops Hr H F. destruct (ps_reachable req a s0 ops Hr H F) as (s' & rs & E & I & R & S).
+  exists s', rs. auto.
+Qed.
+
+Lemma ps_all_capacities_lem : forall req a s0 ops, 0 <= req <= two31 -> ps_init req true = Some s0 ->
+  Forall op_ok ops ->
+  ps_run (ps_preset s0 a) ops <> None /\ ps_run s0 ops <> None /\
+  zlen (slots s0) = pcap s0 /\ zlen (pp s0) = pcap s0 /\ req <= pcap s0 /\ 1 <= pcap s0.
+Proof.
+  intros req a s0 ops Hr H F.
+  destruct (ps_reachable req a s0 ops Hr H F) as (s' & rs & E & _).
+  destruct (ps_init_inv req s0 a Hr H) as [I0 _].
+  destruct (ps_run_refines ops s0 I0 F) as (s1 & rs1 & E1 & _).
+  destruct (ps_init_shape req s0 Hr H) as (Hc & Hle & _).
+  split; [congruence|]. split; [congruence|].
+  split; [apply (inv_len_slots _ I0)|]. split; [apply (inv_len_pp _ I0)|].
+  pose proof (pow2_cap_pos _ Hc). destruct (req >? 0) eqn:G; lia.
+Qed.
+
+Lemma ps_reachable_inv : forall req a s0 ops s' rs, 0 <= req <= two31 -> ps_init req true = Some s0 ->
+  Forall op_ok ops -> ps_run (ps_preset s0 a) ops = Some (s', rs) -> ps_inv s'.
+Proof.
+  intros req a s0 ops s' rs Hr H F E. destruct (ps_reachable req a s0 ops Hr H F) as (s1 & rs1 & E1 & I & _).
+  rewrite E in E1. inversion E1; subst. exact I.
+Qed.
 
 (* The code before the repair touches memory outside pp_slots[] for a
    requested capacity that is not a power of two (3 -> ring modulus 4). *)
 Lemma ps_unrepaired_oob_witness :
   exists s, ps_init_unrepaired 3 true = Some s /\
-            ps_run s [PIns 1; PIns 2; PIns 3; PIns 4] = None.
-Proof. eexists; split; [reflexivity|]. vm_compute. reflexivity. Qed.
+            ps_run s [PIns 1; PIns 2; PIns 3; PIns 4] = None /\
+            ps_run s [PGet 3] = None.
+Proof. eexists; split; [reflexivity|]. vm_compute. auto. Qed.
+
+(* non-vacuity: requested 5 (rounded 8), cursors preset to 2^32-2; 9 inserts
+   wrap alloc_index to 7; refusal when full, double removal, range error *)
+Example ps_example :
+  exists s0 s' rs, ps_init 5 true = Some s0 /\
+    ps_run (ps_preset s0 4294967294)
+      [PIns 11; PIns 12; PIns 13; PRem 7; PRem 7; PGet 6; PIns 14; PIns 15; PIns 16; PIns 17; PIns 18; PIns 19;
+       PIns 20; PRem 9; PGet 0] = Some (s', rs) /\
+    ps_iter s' = [(6, 11); (0, 13); (1, 14); (2, 15); (3, 16); (4, 17); (5, 18); (7, 19)] /\
+    rs = [RIns POk 6; RIns POk 7; RIns POk 0; RRem POk; RRem PDup; RGet 11; RIns POk 1; RIns POk 2; RIns POk 3;
+          RIns POk 4; RIns POk 5; RIns POk 7; RIns PFull (-1); RRem PRange; RGet 13] /\
+    alloc_index s' = 7 /\ free_index s' = 4294967295.
+Proof. do 3 eexists. split; [reflexivity|]. vm_compute. repeat split. Qed.
